@@ -901,7 +901,7 @@ package yang
 // the target, a name that is taken is an error on the target).
 // Partial contract: the calls of Find and Namespace havoc what is known about
 // the trees, their preconditions are assumed.
-//@ func (*Entry).Augment props C07
+//@ func (*Entry).Augment props C07 C04
 //@   only before: loop1/ ensures
 //@   ensures[every-augment-is-either-applied-or-kept] processed + skipped == old(len(e.Augments)) && len(e.Augments) == skipped
 //@   before[into-a-target-that-can-have-children] (*Entry).merge arg0 == target && target != nil && target.Dir != nil
@@ -912,6 +912,7 @@ package yang
 //@   before[a-target-that-cannot-have-children-is-an-error] (*Entry).errorf#2 target != nil && target.Dir == nil
 //@   loop 1
 //@     invariant processed + skipped == _k && len(unapplied) == skipped
+//@     body_ensures[an-augment-is-merged-reported-or-kept] calls("(*Entry).merge") > old(calls("(*Entry).merge")) || calls("(*Entry).errorf") > old(calls("(*Entry).errorf")) || (skipped == old(skipped) + 1 && processed == old(processed))
 
 // ---------------------------------------------------------------------------
 // C08: deviations. Whatever the deviate statements of one deviation are, the
